@@ -19,50 +19,66 @@ EXTENDS Naturals, FiniteSets, Sequences, TLC
 CONSTANTS Threads, PinSyms, InitPin,
           Dev      \* accepted deviations of the code as built (known findings): subset of {"LogoutSplit"}
 
-VARIABLES login,   \* "none" | "user"
+VARIABLES login,   \* "none" | "user" | "so"
           nsess,   \* open sessions on the token
           pin,     \* the user PIN
           open,    \* per thread: has it a session
+          ro,      \* per thread: its session is read-only
           nkey,    \* private token keys made by successful C_UnwrapKey calls
           nracy,   \* C_UnwrapKey calls that a C_Logout of another thread overlapped (as built: such a call may leave a key
                    \* without value behind - whether it returned CKR_OK or, the handle being purged, an error)
           skey,    \* the thread whose session owns the shared sensitive session key (0: there is none)
           pend     \* per thread: [st: "idle" | "inv" | "done", c, a, b, rv, out, lo]
                    \* lo: a C_Logout call of another thread overlapped the call (in real time, not only its instant)
-vars == <<login, nsess, pin, open, nkey, nracy, skey, pend>>
+vars == <<login, nsess, pin, open, ro, nkey, nracy, skey, pend>>
 
 Idle == [st |-> "idle", c |-> "", a |-> "", b |-> "", rv |-> "", out |-> "", lo |-> FALSE]
-Init == /\ login = "none" /\ nsess = 0 /\ pin = InitPin /\ open = [t \in Threads |-> FALSE] /\ nkey = 0 /\ nracy = 0 /\ skey = 0
+Init == /\ login = "none" /\ nsess = 0 /\ pin = InitPin /\ open = [t \in Threads |-> FALSE] /\ ro = [t \in Threads |-> FALSE] /\ nkey = 0 /\ nracy = 0 /\ skey = 0
         /\ pend = [t \in Threads |-> Idle]
 
-Calls == {"open", "close", "login", "logout", "sessinfo", "setpin", "createpriv", "unwrappriv", "mksens", "badset", "readsens"}
+Calls == {"open", "openro", "loginso", "close", "login", "logout", "sessinfo", "setpin", "createpriv", "unwrappriv", "mksens", "badset", "readsens"}
 Inv(t, c, a, b) ==
     /\ pend[t].st = "idle" /\ c \in Calls
-    /\ (c = "open" => ~open[t]) /\ (c # "open" => open[t])
+    /\ (c \in {"open", "openro"} => ~open[t]) /\ (c \notin {"open", "openro"} => open[t])
     /\ pend' = [u \in Threads |->
                    IF u = t THEN [st |-> "inv", c |-> c, a |-> a, b |-> b, rv |-> "", out |-> "",
                                   lo |-> \E w \in Threads \ {t} : pend[w].st # "idle" /\ pend[w].c = "logout"]
                    ELSE IF c = "logout" /\ pend[u].st # "idle" THEN [pend[u] EXCEPT !.lo = TRUE]
                    ELSE pend[u]]
-    /\ UNCHANGED <<login, nsess, pin, open, nkey, nracy, skey>>
+    /\ UNCHANGED <<login, nsess, pin, open, ro, nkey, nracy, skey>>
 
-StateName == IF login = "user" THEN "RW_USER" ELSE "RW_PUBLIC"
+StateName == IF login = "so" THEN "RW_SO" ELSE IF login = "user" THEN "RW_USER" ELSE "RW_PUBLIC"          \* of a R/W session
+StateOf(t) == IF ~ro[t] THEN StateName ELSE IF login = "user" THEN "RO_USER" ELSE IF login = "so" THEN "RO_WITH_SO" ELSE "RO_PUBLIC"
+ROExists   == \E u \in Threads : open[u] /\ ro[u]
 Done(t, rv, out) == pend' = [pend EXCEPT ![t].st = "done", ![t].rv = rv, ![t].out = out]
 Lin(t) ==
     /\ pend[t].st = "inv" /\ UNCHANGED <<nkey, nracy>>
     /\ (pend[t].c \notin {"close", "mksens"} => UNCHANGED skey)
+    /\ (pend[t].c \notin {"open", "openro", "close"} => UNCHANGED ro)
     /\ LET c == pend[t].c  a == pend[t].a  b == pend[t].b IN
        CASE c = "open"   -> /\ nsess' = nsess + 1 /\ open' = [open EXCEPT ![t] = TRUE] /\ Done(t, "OK", "")
-                            /\ UNCHANGED <<login, pin>>
+                            /\ ro' = [ro EXCEPT ![t] = FALSE] /\ UNCHANGED <<login, pin>>
+         \* a read-only session cannot be opened while the SO is logged in - and the SO cannot log in while there is one:
+         \* the two checks exclude each other only if each is ONE step with the change it guards
+         [] c = "openro" -> IF login = "so" THEN Done(t, "SESSION_READ_WRITE_SO_EXISTS", "") /\ UNCHANGED <<login, nsess, pin, open, ro>>
+                            ELSE /\ nsess' = nsess + 1 /\ open' = [open EXCEPT ![t] = TRUE] /\ ro' = [ro EXCEPT ![t] = TRUE]
+                                 /\ Done(t, "OK", "") /\ UNCHANGED <<login, pin>>
+         [] c = "loginso" -> IF ROExists THEN Done(t, "SESSION_READ_ONLY_EXISTS", "") /\ UNCHANGED <<login, nsess, pin, open>>
+                             ELSE IF login = "user" THEN Done(t, "USER_ANOTHER_ALREADY_LOGGED_IN", "") /\ UNCHANGED <<login, nsess, pin, open>>
+                             ELSE IF login = "so" THEN Done(t, "USER_ALREADY_LOGGED_IN", "") /\ UNCHANGED <<login, nsess, pin, open>>
+                             ELSE IF a = "SO" THEN login' = "so" /\ Done(t, "OK", "") /\ UNCHANGED <<nsess, pin, open>>
+                             ELSE Done(t, "PIN_INCORRECT", "") /\ UNCHANGED <<login, nsess, pin, open>>
          \* closing the last session of the token logs out
          [] c = "close"  -> /\ nsess' = nsess - 1 /\ open' = [open EXCEPT ![t] = FALSE] /\ Done(t, "OK", "")
                             /\ skey' = IF skey = t THEN 0 ELSE skey        \* (session objects die with their session)
+                            /\ ro' = [ro EXCEPT ![t] = FALSE]
                             /\ login' = (IF nsess = 1 THEN "none" ELSE login) /\ UNCHANGED pin
-         [] c = "login"  -> IF login = "user" THEN Done(t, "USER_ALREADY_LOGGED_IN", "") /\ UNCHANGED <<login, nsess, pin, open>>
+         [] c = "login"  -> IF login = "so" THEN Done(t, "USER_ANOTHER_ALREADY_LOGGED_IN", "") /\ UNCHANGED <<login, nsess, pin, open>>
+                            ELSE IF login = "user" THEN Done(t, "USER_ALREADY_LOGGED_IN", "") /\ UNCHANGED <<login, nsess, pin, open>>
                             ELSE IF a = pin THEN login' = "user" /\ Done(t, "OK", "") /\ UNCHANGED <<nsess, pin, open>>
                             ELSE Done(t, "PIN_INCORRECT", "") /\ UNCHANGED <<login, nsess, pin, open>>
          [] c = "logout" -> login' = "none" /\ Done(t, "OK", "") /\ UNCHANGED <<nsess, pin, open>>
-         [] c = "sessinfo" -> Done(t, "OK", StateName) /\ UNCHANGED <<login, nsess, pin, open>>
+         [] c = "sessinfo" -> Done(t, "OK", StateOf(t)) /\ UNCHANGED <<login, nsess, pin, open>>
          \* C_SetPIN(old, new) in a public or user session: only with the PIN that is current AT THAT INSTANT
          [] c = "setpin" -> IF a = pin THEN pin' = b /\ Done(t, "OK", "") /\ UNCHANGED <<login, nsess, open>>
                             ELSE Done(t, "PIN_INCORRECT", "") /\ UNCHANGED <<login, nsess, pin, open>>
@@ -97,7 +113,7 @@ Ret(t, c, rv, out) ==
        \/ ("LogoutSplit" \in Dev /\ c = "unwrappriv" /\ pend[t].lo /\ rv = "OK")
     /\ nkey' = IF c = "unwrappriv" /\ rv = "OK" THEN nkey + 1 ELSE nkey
     /\ nracy' = IF c = "unwrappriv" /\ pend[t].lo THEN nracy + 1 ELSE nracy
-    /\ pend' = [pend EXCEPT ![t] = Idle] /\ UNCHANGED <<login, nsess, pin, open, skey>>
+    /\ pend' = [pend EXCEPT ![t] = Idle] /\ UNCHANGED <<login, nsess, pin, open, ro, skey>>
 
 \* what a single thread finds afterwards: the login state, and which PIN logs in
 \* ... and of the keys: as many as calls succeeded; each has the value that was wrapped (as built: except the ones made
@@ -112,14 +128,17 @@ Final(st, goodpin, nkeys, bad, plain) ==
 Next == \/ \E t \in Threads, c \in Calls, a \in PinSyms \cup {""}, b \in PinSyms \cup {""} : Inv(t, c, a, b)
         \/ \E t \in Threads : Lin(t)
         \/ \E t \in Threads, c \in Calls, rv \in {"OK", "PIN_INCORRECT", "USER_ALREADY_LOGGED_IN", "USER_NOT_LOGGED_IN", "ATTRIBUTE_SENSITIVE",
-                     "ATTRIBUTE_READ_ONLY", "NOKEY", "EXISTS"},
-              out \in {"", "RW_USER", "RW_PUBLIC", "LEAK"} : Ret(t, c, rv, out)
+                     "ATTRIBUTE_READ_ONLY", "NOKEY", "EXISTS", "USER_ANOTHER_ALREADY_LOGGED_IN", "SESSION_READ_ONLY_EXISTS",
+                     "SESSION_READ_WRITE_SO_EXISTS"},
+              out \in {"", "RW_USER", "RW_PUBLIC", "RW_SO", "RO_USER", "RO_PUBLIC", "LEAK"} : Ret(t, c, rv, out)
 Spec == Init /\ [][Next]_vars
 
-TypeOK == /\ login \in {"none", "user"} /\ nsess \in 0 .. Cardinality(Threads) + 1 /\ pin \in PinSyms
+TypeOK == /\ login \in {"none", "user", "so"} /\ nsess \in 0 .. Cardinality(Threads) + 1 /\ pin \in PinSyms
           /\ \A t \in Threads : pend[t].st \in {"idle", "inv", "done"}
 \* the sessions the threads hold are the sessions of the token (plus the ones being opened / closed right now)
 SessionCount == nsess = Cardinality({t \in Threads : open[t]})
 \* nobody is logged in on a token without sessions
 NoLoginWithoutSession == nsess = 0 => login = "none"
+\* C03: no read-only session while the SO is logged in
+NoROwithSO == ~(login = "so" /\ ROExists)
 =============================================================================
